@@ -360,17 +360,34 @@ class RngSeam:
         np.random.set_state(st)
 
 
+class GeneratorFault(Exception):
+    """Planned failure of a generator call (a misbehaving user-supplied rng)."""
+
+
 class SimGenerator:
     """Stand-in for `rng: np.random.Generator`.  Faithful calls go to a real seeded
-    Generator; planned calls return adversarial but admissible outcomes."""
+    Generator; planned calls return adversarial but admissible outcomes; a planned
+    `raise` makes the k-th call of the generator fail."""
 
     def __init__(self, seed, plan=None):
         self._g = np.random.Generator(np.random.PCG64(int(seed)))
         self.plan = {}
+        self.raise_at = None
         for f in plan or []:
+            if f.get("kind") == "rng_raise":
+                self.raise_at = int(f.get("call", 0))
+                continue
             self.plan.setdefault(f["fn"], []).append(f)
         self.calls = []
         self.fired = []
+        self.n_calls = 0
+
+    def _maybe_raise(self):
+        k = self.n_calls
+        self.n_calls += 1
+        if self.raise_at is not None and k == self.raise_at:
+            self.fired.append("rng_raise")
+            raise GeneratorFault(f"planned failure of generator call {k}")
 
     def _planned(self, fn):
         lst = self.plan.get(fn)
@@ -383,6 +400,7 @@ class SimGenerator:
         return None
 
     def binomial(self, n, p, size=None):
+        self._maybe_raise()
         f = self._planned("binomial")
         out = NOT_APPLICABLE
         if f is not None:
@@ -399,6 +417,7 @@ class SimGenerator:
         return out
 
     def normal(self, loc=0.0, scale=1.0, size=None):
+        self._maybe_raise()
         f = self._planned("normal")
         out = NOT_APPLICABLE
         if f is not None:
@@ -412,6 +431,7 @@ class SimGenerator:
         return out
 
     def choice(self, a, size=None, replace=True, p=None, **kw):
+        self._maybe_raise()
         f = self._planned("choice")
         out = NOT_APPLICABLE
         if f is not None:
@@ -426,6 +446,7 @@ class SimGenerator:
         return out
 
     def shuffle(self, x, **kw):
+        self._maybe_raise()
         f = self._planned("shuffle")
         if f is not None and f["kind"] == "shuffle_identity":
             self.fired.append(f["kind"])
